@@ -392,33 +392,14 @@ fn gen_query(rng: &mut Rng, t: &TableDef) -> (Query, BTreeSet<&'static str>) {
     (Query { pred, st_pred, proj, count: rng.chance(1, 6) }, tags)
 }
 
-/// TRUE-mask of the filter over an adapted (table-schema) batch: the harness' own evaluator when it
-/// models the predicate, otherwise the in-memory physical evaluator
-fn oracle_mask(q: &Query, t: &TableDef, adapted: &RecordBatch, ctx: &SessionContext, tschema: &SchemaRef) -> Result<(Vec<bool>, &'static str), String> {
-    if q.st_pred.is_none() {
-        let ncols = t.cols.len();
-        let rows = batches_to_rows(&[adapted.clone()]);
-        let mut mask = vec![];
-        let mut ok = true;
-        for r in &rows {
-            match q.pred.eval(&r[..ncols], &t.cols) {
-                Ok(v) => mask.push(v == Some(true)),
-                Err(_) => {
-                    ok = false;
-                    break;
-                }
-            }
-        }
-        if ok {
-            return Ok((mask, "harness-evaluator"));
-        }
-    }
+/// TRUE-mask of the (unsimplified) physical filter evaluated in memory over an adapted (table-schema) batch
+fn oracle_mask(q: &Query, t: &TableDef, adapted: &RecordBatch, ctx: &SessionContext, tschema: &SchemaRef) -> Result<Vec<bool>, String> {
     let df = DFSchema::try_from(tschema.as_ref().clone()).map_err(|e| e.to_string())?;
     let phys = ctx.create_physical_expr(q.filter_expr(t), &df).map_err(|e| e.to_string())?;
     let v = phys.evaluate(adapted).map_err(|e| e.to_string())?;
     let arr = v.into_array(adapted.num_rows()).map_err(|e| e.to_string())?;
     let b = arr.as_any().downcast_ref::<BooleanArray>().ok_or("filter is not boolean")?;
-    Ok(((0..b.len()).map(|i| b.is_valid(i) && b.value(i)).collect(), "in-memory-physical-evaluator"))
+    Ok((0..b.len()).map(|i| b.is_valid(i) && b.value(i)).collect())
 }
 
 /// the harness' own evaluator over an adapted batch (None when it does not model the predicate)
@@ -795,7 +776,8 @@ fn direct_calls(rep: &Report, t: &TableDef, files: &[FileDef], tschema: &SchemaR
         }
         // (2) expression adapter: rewritten filter over the RAW batch == filter over the adapted batch
         if let Ok(w) = &want {
-            if let Ok((mask, _)) = oracle_mask(q, t, w, ctx, tschema) {
+            // like with like: the same (unsimplified) physical expression, evaluated in memory on the adapted batch
+            if let Ok(mask) = oracle_mask(q, t, w, ctx, tschema) {
                 let r = vcommon::par::guard(|| -> Result<Vec<bool>, String> {
                     let df = DFSchema::try_from(tschema.as_ref().clone()).map_err(|e| e.to_string())?;
                     let phys = ctx.create_physical_expr(q.filter_expr(t), &df).map_err(|e| e.to_string())?;
